@@ -18,7 +18,7 @@ for pid in props:
         'replay_cmd_template': 'python3 bin/verif replay {path}',
         'engine': c.get('engine', 'E-run'),
         'level_claimed': {'category': c['level'], 'text': c['level_text'], 'design_ref': c.get('design_ref', 'DESIGN.md section 3 (%s)' % pid)},
-        'level_note': c['level_note'],
+        'level_note': c['level_note'] + (' This check is cheap: the quick tier runs the full (thorough) enumeration too; where the rule text gives quick/thorough bounds the thorough ones apply to both.' if c.get('quick_is_thorough') else ''),
         'technique': c['technique'],
     })
 na = [{'property_id': p, 'reason': NOT_APPLICABLE.get(p, 'check not built yet (framework under construction); will be claimed once its exhaustive harness runs clean end-to-end')} for p in props if p not in CHECKS]
